@@ -446,9 +446,151 @@ def counts(rec, seed, nmax):
     rec.violation('berlekamp_massey.LfsrCount', 'count', b, {}, {}, True)
 
 
+def interp_validation(rec, seed, trials):
+  """Serval-style validation of the interpreter: concrete inputs through the
+  interpreted AST and through g++ builds of both variants of the working
+  tree, plus the Python routine and the textbook algorithm."""
+  bm = _bm()
+  rec.functions('harness/cxxsym.py:Interp (validation against g++ builds)')
+  rec.bounds('%d seeded sequences of lengths 0..320 (random, leading/trailing '
+             'zero runs, all-one), both variants' % trials)
+  rng = random.Random(seed + 17)
+  cc = Compiled()
+  bad = []
+  try:
+    for t in range(trials):
+      n = rng.choice([1, 2, 7, 8, 9, 63, 64, 65, 100, 127, 128, 129, 191,
+                      192, 193, 200, 256, 257, 320])
+      s = rng.getrandbits(n) if n else 0
+      r_ = rng.random()
+      if r_ < 0.2 and n > 70:
+        s &= ~((1 << 64) - 1)
+      elif r_ < 0.3:
+        s = (1 << n) - 1
+      elif r_ < 0.4 and n > 70:
+        s &= (1 << (n - 64)) - 1
+      want = textbook_concrete(s, n)
+      nwords = ((n + 7) // 8 + 7) // 8
+      words = [V((s >> (64 * i)) & (2**64 - 1), 64, False)
+               for i in range(nwords)]
+      for name, cl in (('portable', False), ('clmul', True)):
+        c = cc.run(name, s, n)
+        try:
+          got = cxxsym.lfsr_length_impl(words, n, cl)[0] if words or n == 0 \
+              else None
+          g = got.v if got is not None and got.concrete else None
+        except cxxsym.Unsupported as ex:
+          g = 'unsupported: %s' % ex
+        if words and g != c:
+          bad.append('interpreter %r vs compiled %r (%s, n=%d, s=%#x)' %
+                     (g, c, name, n, s))
+        if c != want:
+          bad.append('compiled %s = %d, textbook %d (n=%d, s=%#x)' %
+                     (name, c, want, n, s))
+      if bm.LinearComplexityNative(s, n) != want:
+        bad.append('python native differs from textbook (n=%d, s=%#x)' %
+                   (n, s))
+      rec.replayed()
+  finally:
+    cc.close()
+  rec.path('validation')
+  rec.reach(1, 1)
+  rec.sample(dict(validation_trials=trials, disagreements=len(bad)))
+  if not bad:
+    rec.d['obligations'] += trials
+    rec.d['proved'] += trials
+  for b in bad[:3]:
+    if b.startswith('interpreter'):
+      rec.inconclusive('cxxsym validation: ' + b)
+    else:
+      import re  # pylint: disable=g-import-not-at-top
+      m = re.search(r'n=(\d+), s=(0x[0-9a-f]+)', b)
+      rec.violation('berlekamp_massey.cc:LfsrLengthImpl', 'concrete', b,
+                    dict(n=int(m.group(1)), s=int(m.group(2), 16)),
+                    dict(module='harness.props.c14', function='replay_seq',
+                         args=dict(s=str(int(m.group(2), 16)),
+                                   n=int(m.group(1)))), True)
+
+
+_EMPTY_PROG = r"""
+import ctypes, sys
+lib = ctypes.CDLL(sys.argv[1])
+print(lib.lfsr_len(b'', 0, 0))
+"""
+
+
+def empty_input(rec, seed):
+  """Length 0: LfsrLength(<no bytes>, 0).  The interpreter reports any vector
+  access outside its bounds; the compiled variants run in a subprocess built
+  with -fsanitize=address so that an out-of-bounds read is observable."""
+  import sys  # pylint: disable=g-import-not-at-top
+  rec.functions('paranoid_crypto/lib/randomness_tests/cc_util/'
+                'berlekamp_massey.cc:LfsrLength',
+                'paranoid_crypto/lib/randomness_tests/cc_util/'
+                'berlekamp_massey.cc:LfsrLengthImpl')
+  rec.bounds('the empty sequence (0 bytes, n = 0), both variants')
+  for clmul in (False, True):
+    name = 'clmul' if clmul else 'portable'
+    rec.path('merged')
+    try:
+      ok, length, it = cxxsym.lfsr_length([], 0, clmul)
+      if ok.concrete and ok.v == 1 and length.concrete and length.v == 0:
+        rec.obligation('proved')
+        continue
+      what = 'LfsrLength(empty, 0) = (%r, %r)' % (ok, length)
+    except cxxsym.Unsupported as ex:
+      what = str(ex)
+    bad, detail = replay_empty(name)
+    rec.replayed()
+    if 'out of range' in what or bad:
+      rec.violation('berlekamp_massey.cc:LfsrLengthImpl', 'empty_input',
+                    '%s variant: %s; %s' % (name, what, detail),
+                    dict(variant=name, n=0),
+                    dict(module='harness.props.c14',
+                         function='replay_empty_cmd', args=dict(name=name)),
+                    bad, tags=['empty_vector_read'])
+    else:
+      rec.inconclusive('empty input: ' + what)
+  rec.reach(1, 1)
+  rec.sample(dict(fn='LfsrLength', input='empty'))
+
+
+def replay_empty(name):
+  import sys  # pylint: disable=g-import-not-at-top
+  tmp = tempfile.mkdtemp(prefix='verif_bm_')
+  try:
+    flags = ['-mpclmul', '-D__CLMUL__'] if name == 'clmul' else []
+    so = os.path.join(tmp, name + '_asan.so')
+    r = subprocess.run(['g++', '-O1', '-g', '-std=c++17', '-shared', '-fPIC',
+                        '-D_GLIBCXX_ASSERTIONS', '-I' + REPO] + flags +
+                       [WRAPPER, '-o', so], capture_output=True, text=True,
+                       check=False)
+    if r.returncode != 0:
+      return False, 'build failed: ' + r.stderr[-200:]
+    prog = os.path.join(tmp, 'p.py')
+    with open(prog, 'w') as f:
+      f.write(_EMPTY_PROG)
+    r = subprocess.run([sys.executable, prog, so], capture_output=True,
+                       text=True, check=False, timeout=60)
+    crashed = r.returncode != 0
+    return crashed, ('compiled with -D_GLIBCXX_ASSERTIONS: exit %s %s' %
+                     (r.returncode, (r.stderr or r.stdout).strip()[-160:]))
+  finally:
+    shutil.rmtree(tmp, ignore_errors=True)
+
+
+def replay_empty_cmd(name):
+  bad, detail = replay_empty(name)
+  print(detail)
+  return bad
+
+
 def jobs(tier, seed):
   thorough = tier == 'thorough'
-  out = []
+  out = [Job('empty_input', empty_input, {}, timeout=600, cost=5),
+         Job('interp_validation', interp_validation,
+             dict(trials=150 if not thorough else 2000), timeout=3000,
+             cost=20)]
   for n in ([0, 1, 2, 3, 5, 8, 11, 12, 13] if not thorough else
             list(range(0, 17))):
     for clmul in (False, True):
